@@ -14,3 +14,6 @@ pub mod c08;
 pub mod c01;
 pub mod c13;
 pub mod c14;
+pub mod c05;
+pub mod c18;
+pub mod c19;
